@@ -29,6 +29,8 @@ type ShimHooks struct {
 }
 
 // InstallShimHooks activates the hooks; call Uninstall when the execution is over.
+func init() { vsync.Track = true }
+
 func InstallShimHooks(s *sched.Sched) *ShimHooks {
 	h := &ShimHooks{S: s, locks: map[interface{}]*shimLock{}, pools: map[*vsync.Pool][]interface{}{}, names: map[interface{}]int{}}
 	vsync.H = h
